@@ -174,11 +174,16 @@ FamC08(dummy) ==
 \* are checked by TraceExec.NestEv; the specification's own events are unaffected
 ItemN(id, op, form, n) == [id |-> id, op |-> op, form |-> form, reads |-> <<>>, nest |-> n]
 StepC08n(lv, b, k) == <<ItemN(IdOf(b, k, 1), "map", "closure", IF (b + k) % 2 = 0 THEN lv ELSE 0)>>
+\* `ninit`: branches whose initial expression is itself a bare thread-spawning macro invocation (`join_spawn! { .. } -> f`);
+\* only the generator reads the field
+NestInit(P, bs) == P @@ [ninit |-> bs]
 FamC08n(dummy) ==
   {Run([P EXCEPT !.caller = c], <<>>, {}) :
      c \in {"named", "unnamed"},
      P \in {LET S(b, k) == StepC08n(lv, b, k) IN Build(Kind(FALSE, t, TRUE), "res", pr, S, NoName, ExprInit, "none") :
-              t \in BOOLEAN, lv \in 1 .. 3, pr \in {<<1>>, <<1, 1>>, <<2, 1>>, <<1, 2, 2>>}}}
+              t \in BOOLEAN, lv \in 1 .. 3, pr \in {<<1>>, <<1, 1>>, <<2, 1>>, <<1, 2, 2>>}}
+         \cup {NestInit(Build(Kind(FALSE, t, TRUE), "res", pr, StepC08, NoName, ExprInit, "none"), bs) :
+                 t \in BOOLEAN, pr \in {<<1>>, <<1, 1>>, <<2, 1>>, <<1, 2, 2>>}, bs \in {<<0>>, <<1>>, <<0, 1>>}}}
 
 \* ---- C09: async laziness / independence / wake-ups / completion.  Gates on initial futures, on
 \* and_then / or_else / then futures and on the handler future.
